@@ -114,11 +114,25 @@ _LATE_ITEMS = {
 }
 
 
+# a synchronous call made by a task while an earlier sibling is suspended on a scheduled batch the callee does not need: the
+# nested wait ends as soon as the callee is done and must not flush the sibling's batch
+_NESTED_WAIT_DONE = {
+    "roots": [[{"op": "yield", "x": "x1", "s": {"tuple": [
+        {"new": {"task": [{"op": "yield", "x": "a1", "s": {"new": {"item": [0, 1, {"set": 1}]}}}, {"op": "return", "e": {"var": "a1"}}]}},
+        {"new": {"task": [{"op": "let", "h": "h1", "f": {"task": [{"op": "return", "e": 7}]}}, {"op": "sync", "x": "s1", "h": "h1"},
+                          {"op": "let", "h": "h2", "f": {"task": [{"op": "yield", "x": "c1", "s": {"new": {"item": [1, 2, {"set": 2}]}}}, {"op": "return", "e": {"var": "c1"}}]}},
+                          {"op": "sync", "x": "s2", "h": "h2"},
+                          {"op": "yield", "x": "b1", "s": {"new": {"item": [0, 3, {"set": 3}]}}}, {"op": "return", "e": {"var": "b1"}}]}}]}},
+        {"op": "return", "e": {"var": "x1"}}]],
+    "params": {"kinds": {}},
+}
+
+
 def _extra_monitors(c, io, build):
     return machmon.analyse_flush_nesting(c, io) if _is_reentrant(c) else []
 
 
 mach.install(globals(), "C05", ("EvBefore", "EvFlush", "EvItemDone", "EvAfter", "EvIllegal"), ("C05:",), PROFILES,
-             n_quick=300, n_thorough=25000, nontrivial=_nontrivial, level="proof", corpus=[_KEPT_FLUSHED, _FLUSH_BASE_EXC, _LATE_ITEMS] + _REENTRANT,
+             n_quick=300, n_thorough=25000, nontrivial=_nontrivial, level="proof", corpus=[_KEPT_FLUSHED, _FLUSH_BASE_EXC, _LATE_ITEMS, _NESTED_WAIT_DONE] + _REENTRANT,
              impl_only=_is_reentrant, extra_monitors=_extra_monitors,
              extra_gen=mach.extra_all(_extra_gen, mach.extra_profiles(_BASE_ERR, 40, 3000)))
